@@ -1,5 +1,7 @@
 (* C07 - proofs about the model of the PGEN / VCF codecs. *)
-From HV Require Import Prelude C07_Model C07_Check.
+From HV Require Import Prelude BpText C07_Text C07_Files C07_Model C07_Check C07_ProofsText.
+(* (C07_Check also exports BpText / C07_Text / C07_Files names; the proofs about the text of
+   the files are in C07_ProofsText) *)
 
 (* ---- the chunk loop ------------------------------------------------------- *)
 
@@ -141,40 +143,99 @@ Proof.
   change 1%nat with (Z.to_nat 1). apply Z2Nat.inj_le; lia.
 Qed.
 
+(* pgenlib's acceptance rule.  complete: a batch that meets the stated precondition is
+   accepted; sound: an accepted batch meets it (so a batch that violates it is rejected) *)
+Definition paccept_complete (paccept : Z -> batch -> bool) : Prop :=
+  forall limit b, batch_ok limit b = true -> paccept limit b = true.
+Definition paccept_sound (paccept : Z -> batch -> bool) : Prop :=
+  forall limit b, paccept limit b = true -> batch_ok limit b = true.
+
+Lemma paccept_std_complete : paccept_complete paccept_std.
+Proof. intros limit b H. exact H. Qed.
+Lemma paccept_std_sound : paccept_sound paccept_std.
+Proof. intros limit b H. exact H. Qed.
+
+Lemma forallb_eq_ext {A} (P Q : A -> bool) l :
+  (forall x, P x = true -> Q x = true) -> forallb P l = true -> forallb Q l = true.
+Proof.
+  intros H. induction l as [|a r IH]; [reflexivity|]. cbn [forallb].
+  rewrite !andb_true_iff. intros [Ha Hr]. split; [apply H; exact Ha|apply IH; exact Hr].
+Qed.
+
+(* under both clauses the acceptance of the batches is the per-variant test [accept],
+   whatever the chunk size *)
+Lemma batches_paccept paccept legacy c g : (1 <= c)%nat ->
+  paccept_complete paccept -> paccept_sound paccept ->
+  forallb (paccept (max_allele_ct (g_variants g))) (pgen_batches legacy c g) = accept legacy g.
+Proof.
+  intros Hc Hcomp Hsound. rewrite <- (batches_accept legacy c g Hc).
+  destruct (forallb (batch_ok (max_allele_ct (g_variants g))) (pgen_batches legacy c g)) eqn:E.
+  - revert E. apply forallb_eq_ext. intros b. apply Hcomp.
+  - destruct (forallb (paccept (max_allele_ct (g_variants g))) (pgen_batches legacy c g)) eqn:E'; [|reflexivity].
+    rewrite <- E. symmetry. revert E'. apply forallb_eq_ext. intros b. apply Hsound.
+Qed.
+
+(* with the complete clause alone: what [accept] passes is accepted *)
+Lemma batches_paccept_ok paccept legacy c g : (1 <= c)%nat ->
+  paccept_complete paccept -> accept legacy g = true ->
+  forallb (paccept (max_allele_ct (g_variants g))) (pgen_batches legacy c g) = true.
+Proof.
+  intros Hc Hcomp Hacc. rewrite <- (batches_accept legacy c g Hc) in Hacc.
+  revert Hacc. apply forallb_eq_ext. intros b. apply Hcomp.
+Qed.
+
 (* the whole write + read, with no chunk size in it *)
 Definition pgen_rt_closed (pload : scall -> scall) (g : geno) : res geno :=
   let n := lenZ (g_samples g) in
   let p := lenZ (g_variants g) in
   if p =? 0 then Ok (mkg (g_samples g) [] [] [n; 0; 3])
+  else if n =? 0 then Err E_Value
   else if accept false g
        then Ok (mkg (g_samples g) (g_variants g)
                     (map (fun x => map (load_call pload) (v_stored (planes g) x)) (vrows g)) [n; p; 3])
        else Err E_Runtime.
 
-Lemma chunking_irrelevant pload g cw cr : chunk_dom cw -> chunk_dom cr ->
-  pgen_roundtrip_model pload false cw cr g = pgen_rt_closed pload g.
+Lemma step_nat cw p : chunk_dom cw -> 1 <= p ->
+  (eff_chunk cw p <=? 0) = false /\ (1 <= Z.to_nat (eff_chunk cw p))%nat.
 Proof.
-  intros Hw Hr. unfold pgen_roundtrip_model, pgen_rt_closed, pgen_write.
-  destruct (lenZ (g_variants g) =? 0) eqn:Ep.
-  - cbn [bind]. unfold pgen_read. cbn [pf_variants pf_samples]. reflexivity.
-  - assert (Hp : 1 <= lenZ (g_variants g)).
-    { apply Z.eqb_neq in Ep. unfold lenZ in *. lia. }
-    pose proof (eff_chunk_pos cw _ Hw Hp) as Hs.
-    destruct (eff_chunk cw (lenZ (g_variants g)) <=? 0) eqn:E0; [apply Z.leb_le in E0; lia|].
-    assert (Hc : (1 <= Z.to_nat (eff_chunk cw (lenZ (g_variants g))))%nat).
-    { change 1%nat with (Z.to_nat 1). apply Z2Nat.inj_le; lia. }
-    rewrite batches_accept by exact Hc.
-    destruct (accept false g); [|reflexivity].
-    cbn [bind]. unfold pgen_read. cbn [pf_variants pf_samples]. rewrite Ep.
-    unfold stored. cbn [pf_batches]. rewrite batches_stored by exact Hc.
-    rewrite load_chunks_irrelevant by exact Hr. cbn [bind].
-    rewrite map_map. reflexivity.
+  intros Hw Hp. pose proof (eff_chunk_pos cw p Hw Hp) as Hs. split.
+  - apply Z.leb_gt. lia.
+  - change 1%nat with (Z.to_nat 1). apply Z2Nat.inj_le; lia.
 Qed.
 
-Corollary chunking_irrelevant2 pload g cw cr cw' cr' :
+Lemma read_written pload cr g c : chunk_dom cr -> (1 <= c)%nat ->
+  (lenZ (g_variants g) =? 0) = false ->
+  pgen_read pload false cr (mkpf (g_samples g) (g_variants g) (max_allele_ct (g_variants g)) (pgen_batches false c g))
+  = Ok (mkg (g_samples g) (g_variants g)
+            (map (fun x => map (load_call pload) (v_stored (planes g) x)) (vrows g))
+            [lenZ (g_samples g); lenZ (g_variants g); 3]).
+Proof.
+  intros Hr Hc Ep. unfold pgen_read. cbn [pf_variants pf_samples]. rewrite Ep.
+  unfold stored. cbn [pf_batches]. rewrite batches_stored by exact Hc.
+  rewrite load_chunks_irrelevant by exact Hr. cbn [bind]. rewrite map_map. reflexivity.
+Qed.
+
+Lemma chunking_irrelevant paccept pload g cw cr :
+  paccept_complete paccept -> paccept_sound paccept -> chunk_dom cw -> chunk_dom cr ->
+  pgen_roundtrip_model paccept pload false cw cr g = pgen_rt_closed pload g.
+Proof.
+  intros Hcomp Hsound Hw Hr. unfold pgen_roundtrip_model, pgen_rt_closed, pgen_write.
+  destruct (lenZ (g_variants g) =? 0) eqn:Ep.
+  - cbn [bind]. unfold pgen_read. cbn [pf_variants pf_samples]. reflexivity.
+  - destruct (lenZ (g_samples g) =? 0) eqn:En; [reflexivity|].
+    assert (Hp : 1 <= lenZ (g_variants g)).
+    { apply Z.eqb_neq in Ep. unfold lenZ in *. lia. }
+    destruct (step_nat cw _ Hw Hp) as [E0 Hc]. rewrite E0.
+    rewrite batches_paccept by assumption.
+    destruct (accept false g); [|reflexivity].
+    cbn [bind]. apply read_written; assumption.
+Qed.
+
+Corollary chunking_irrelevant2 paccept pload g cw cr cw' cr' :
+  paccept_complete paccept -> paccept_sound paccept ->
   chunk_dom cw -> chunk_dom cr -> chunk_dom cw' -> chunk_dom cr' ->
-  pgen_roundtrip_model pload false cw cr g = pgen_roundtrip_model pload false cw' cr' g.
-Proof. intros. rewrite !chunking_irrelevant by assumption. reflexivity. Qed.
+  pgen_roundtrip_model paccept pload false cw cr g = pgen_roundtrip_model paccept pload false cw' cr' g.
+Proof. intros. rewrite !(chunking_irrelevant paccept) by assumption. reflexivity. Qed.
 
 (* ---- the writer's precondition (defect 8) ---------------------------------- *)
 
@@ -219,22 +280,27 @@ Proof.
     unfold allele_ct. apply call_dom_pair_ok; auto.
 Qed.
 
-Lemma pgen_allele_ct_ok g cw : geno_domb false g = true -> chunk_dom cw ->
-  exists pf, pgen_write false cw g = Ok pf
+Lemma geno_domb_samples half g : geno_domb half g = true -> (lenZ (g_samples g) =? 0) = false.
+Proof.
+  unfold geno_domb. rewrite !andb_true_iff, Z.leb_le. intros [[Hn _] _]. apply Z.eqb_neq. lia.
+Qed.
+
+Lemma pgen_allele_ct_ok paccept g cw :
+  paccept_complete paccept -> geno_domb false g = true -> chunk_dom cw ->
+  exists pf, pgen_write paccept false cw g = Ok pf
     /\ forallb (batch_ok (pf_limit pf)) (pf_batches pf) = true
     /\ pf_samples pf = g_samples g.
 Proof.
-  intros Hd Hw. unfold pgen_write.
+  intros Hcomp Hd Hw. unfold pgen_write.
   destruct (lenZ (g_variants g) =? 0) eqn:Ep.
   - eexists; split; [reflexivity|]. cbn. auto.
-  - assert (Hp : 1 <= lenZ (g_variants g)).
+  - rewrite (geno_domb_samples _ _ Hd).
+    assert (Hp : 1 <= lenZ (g_variants g)).
     { apply Z.eqb_neq in Ep. unfold lenZ in *. lia. }
-    pose proof (eff_chunk_pos cw _ Hw Hp) as Hs.
-    destruct (eff_chunk cw (lenZ (g_variants g)) <=? 0) eqn:E0; [apply Z.leb_le in E0; lia|].
-    assert (Hc : (1 <= Z.to_nat (eff_chunk cw (lenZ (g_variants g))))%nat).
-    { change 1%nat with (Z.to_nat 1). apply Z2Nat.inj_le; lia. }
-    pose proof (batches_accept false _ g Hc) as Hacc. rewrite (domain_accept g Hd) in Hacc.
-    rewrite Hacc. eexists; split; [reflexivity|]. cbn [pf_limit pf_batches pf_samples]. auto.
+    destruct (step_nat cw _ Hw Hp) as [E0 Hc]. rewrite E0.
+    rewrite (batches_paccept_ok paccept false _ g Hc Hcomp (domain_accept g Hd)).
+    eexists; split; [reflexivity|]. cbn [pf_limit pf_batches pf_samples]. split; [|reflexivity].
+    rewrite (batches_accept false _ g Hc). apply domain_accept. exact Hd.
 Qed.
 
 (* the pinned tree's counts (number of distinct observed values) break it *)
@@ -245,14 +311,14 @@ Definition g_unobserved_allele : geno :=
 
 Example legacy_allele_cts_refuted_missing :
   geno_domb false g_missing_biallelic = true
-  /\ pgen_write true None g_missing_biallelic = Err E_Runtime
-  /\ exists pf, pgen_write false None g_missing_biallelic = Ok pf.
+  /\ pgen_write paccept_std true None g_missing_biallelic = Err E_Runtime
+  /\ exists pf, pgen_write paccept_std false None g_missing_biallelic = Ok pf.
 Proof. vm_compute. repeat split. eexists; reflexivity. Qed.
 
 Example legacy_allele_cts_refuted_gap :
   geno_domb false g_unobserved_allele = true
-  /\ pgen_write true None g_unobserved_allele = Err E_Runtime
-  /\ exists pf, pgen_write false None g_unobserved_allele = Ok pf.
+  /\ pgen_write paccept_std true None g_unobserved_allele = Err E_Runtime
+  /\ exists pf, pgen_write paccept_std false None g_unobserved_allele = Ok pf.
 Proof. vm_compute. repeat split. eexists; reflexivity. Qed.
 
 (* ---- the round-trip relation as a Prop ------------------------------------- *)
@@ -323,29 +389,113 @@ Proof.
     eapply Forall2_impl'; [|exact Hab]. intros x y. apply call_equivb_spec.
 Qed.
 
+Lemma lenZ_0_nil {A} (l : list A) : lenZ l = 0 -> l = [].
+Proof. destruct l; [reflexivity|]. unfold lenZ. cbn [length]. lia. Qed.
+
+Lemma in_combine_snd_ex {A B} (la : list A) (lb : list B) :
+  length lb = length la -> forall b, In b lb -> exists a, In (a, b) (combine la lb).
+Proof.
+  revert lb. induction la as [|a ra IH]; intros [|b0 rb] H b Hb; cbn in *; try discriminate; try tauto.
+  destruct Hb as [->|Hb]; [exists a; auto|].
+  destruct (IH rb ltac:(lia) b Hb) as [a' Ha']. exists a'. auto.
+Qed.
+
+(* what the property says about the object read back from a matrix without entries *)
+Definition empty_rel (g g' : geno) : Prop :=
+  g_samples g' = g_samples g /\ g_variants g' = g_variants g
+  /\ Forall (fun r => r = []) (g_rows g') /\ In 0 (g_shape g').
+
+Lemma empty_back_spec g g' : empty_back g g' = true <-> empty_rel g g'.
+Proof.
+  unfold empty_back, empty_rel. rewrite !andb_true_iff.
+  rewrite (list_eqb_spec Z.eqb Z.eqb_eq), (list_eqb_spec variant_eqb variant_eqb_spec).
+  rewrite forallb_forall, Forall_forall, existsb_exists. split.
+  - intros [[[-> ->] Hr] [x [Hin Hx]]]. repeat split.
+    + intros r Hr'. specialize (Hr r Hr'). destruct r; [reflexivity|discriminate].
+    + apply Z.eqb_eq in Hx. subst x. exact Hin.
+  - intros [-> [-> [Hr Hin]]]. repeat split.
+    + intros r Hr'. rewrite (Hr r Hr'). reflexivity.
+    + exists 0. split; [exact Hin|reflexivity].
+Qed.
+
+Lemma geno_domb_domb0 half g : geno_domb half g = true -> geno_domb0 true g = true.
+Proof.
+  unfold geno_domb, geno_domb0. rewrite !andb_true_iff. intros [[_ Hl] Hr]. split; [exact Hl|].
+  revert Hr. apply forallb_eq_ext. intros [v r]. unfold row_domb. cbn [fst snd].
+  rewrite !andb_true_iff. intros [[[H1 H2] H3] H4]. repeat split; try assumption.
+  revert H4. apply forallb_eq_ext. intros [[a b] p]. unfold call_domb.
+  rewrite !andb_true_iff. intros [[[Ha Hb] _] Hp]. repeat split; assumption.
+Qed.
+
+Lemma no_half_domain g : geno_domb false g = true -> has_half g = false.
+Proof.
+  unfold geno_domb, has_half. rewrite !andb_true_iff. intros [[_ Hl] Hr]. apply Z.eqb_eq in Hl.
+  apply not_true_is_false. intros H. apply existsb_exists in H. destruct H as [r [Hin Hex]].
+  apply existsb_exists in Hex. destruct Hex as [[[a b] p] [Hc Hx]].
+  destruct (in_combine_snd_ex (g_variants g) (g_rows g) ltac:(unfold lenZ in Hl; lia) r Hin) as [v Hvr].
+  rewrite forallb_forall in Hr. specialize (Hr _ Hvr). unfold row_domb in Hr. cbn [fst snd] in Hr.
+  rewrite !andb_true_iff in Hr. destruct Hr as [_ Hcalls]. rewrite forallb_forall in Hcalls.
+  specialize (Hcalls _ Hc). unfold call_domb in Hcalls. rewrite !andb_true_iff in Hcalls.
+  destruct Hcalls as [[_ Hh] _]. cbn [orb] in Hh. rewrite Hh in Hx. discriminate.
+Qed.
+
 (* soundness of the boolean checkers evaluated on the implementation's output *)
 Lemma holds_pgen_sound k :
   holds_pgen k = true ->
-  geno_domb (pc_strict_half k) (pc_g k) = true -> chunk_dom (pc_cw k) -> chunk_dom (pc_cr k) ->
+  geno_domb false (pc_g k) = true -> chunk_dom (pc_cw k) -> chunk_dom (pc_cr k) ->
   pc_wpre k = false -> pc_rpre k = false ->
-  exists g', pc_back k = Ok g' /\ rt_rel (pc_g k) g'.
+  exists g', pc_back k = Ok g'
+    /\ (g_variants (pc_g k) <> [] -> rt_rel (pc_g k) g')
+    /\ (g_variants (pc_g k) = [] -> empty_rel (pc_g k) g').
 Proof.
   unfold holds_pgen. intros H Hd Hw Hr Hwp Hrp.
-  rewrite Hd, (proj2 (chunk_domb_spec _) Hw), (proj2 (chunk_domb_spec _) Hr) in H. cbn in H.
-  unfold same_back, written in H. rewrite Hwp, Hrp in H.
+  rewrite (geno_domb_domb0 _ _ Hd), (proj2 (chunk_domb_spec _) Hw), (proj2 (chunk_domb_spec _) Hr) in H.
+  rewrite (geno_domb_samples _ _ Hd), (no_half_domain _ Hd) in H. cbn [andb] in H.
+  unfold same_back, written, is_empty_geno in H. rewrite Hwp, Hrp, (geno_domb_samples _ _ Hd) in H. cbn [orb] in H.
   destruct (pc_back k) as [g'|]; [|discriminate].
-  exists g'. split; [reflexivity|]. apply same_geno_spec. exact H.
+  exists g'. split; [reflexivity|]. destruct (lenZ (g_variants (pc_g k)) =? 0) eqn:Ep.
+  - apply Z.eqb_eq, lenZ_0_nil in Ep. split; [congruence|]. intros _. apply empty_back_spec. exact H.
+  - split; [intros _; apply same_geno_spec; exact H|]. intros E. rewrite E in Ep. discriminate.
+Qed.
+
+(* variants without samples through PGEN: no interpreter crash, and if anything is read back
+   it is the empty matrix with the same variants *)
+Lemma holds_pgen_sound_nosamples k :
+  holds_pgen k = true -> geno_domb0 true (pc_g k) = true -> chunk_dom (pc_cw k) -> chunk_dom (pc_cr k) ->
+  g_samples (pc_g k) = [] -> g_variants (pc_g k) <> [] ->
+  match pc_back k with
+  | Ok g' => empty_rel (pc_g k) g'
+  | Err e => e <> E_Crash /\ e <> 12
+  end.
+Proof.
+  unfold holds_pgen. intros H Hd Hw Hr Hn Hp.
+  rewrite Hd, (proj2 (chunk_domb_spec _) Hw), (proj2 (chunk_domb_spec _) Hr), Hn in H. cbn [andb lenZ length Z.of_nat Z.eqb] in H.
+  assert (Ep : (lenZ (g_variants (pc_g k)) =? 0) = false).
+  { apply Z.eqb_neq. unfold lenZ. destruct (g_variants (pc_g k)); [congruence|cbn [length]; lia]. }
+  rewrite Ep in H. cbn [negb] in H.
+  destruct (pc_back k) as [g'|e]; [apply empty_back_spec; exact H|].
+  unfold not_crash in H. rewrite andb_true_iff, !negb_true_iff, !Z.eqb_neq in H. exact H.
 Qed.
 
 Lemma holds_vcf_sound k :
-  holds_vcf k = true -> geno_domb true (vc_g k) = true ->
+  holds_vcf k = true -> geno_domb0 true (vc_g k) = true ->
   vc_wpre k = false -> vc_rpre k = false ->
-  exists g', vc_back k = Ok g' /\ rt_rel (vc_g k) g'.
+  exists g', vc_back k = Ok g'
+    /\ (g_samples (vc_g k) <> [] -> g_variants (vc_g k) <> [] -> rt_rel (vc_g k) g')
+    /\ (g_samples (vc_g k) = [] \/ g_variants (vc_g k) = [] -> empty_rel (vc_g k) g').
 Proof.
   unfold holds_vcf. intros H Hd Hwp Hrp. rewrite Hd in H.
   unfold same_back, written in H. rewrite Hwp, Hrp in H.
   destruct (vc_back k) as [g'|]; [|discriminate].
-  exists g'. split; [reflexivity|]. apply same_geno_spec. exact H.
+  exists g'. split; [reflexivity|]. unfold is_empty_geno in H.
+  destruct (lenZ (g_samples (vc_g k)) =? 0) eqn:En; cbn [orb] in H.
+  - apply empty_back_spec in H. split; [|intros _; exact H].
+    intros Hs. apply Z.eqb_eq, lenZ_0_nil in En. congruence.
+  - destruct (lenZ (g_variants (vc_g k)) =? 0) eqn:Ep.
+    + apply empty_back_spec in H. split; [|intros _; exact H].
+      intros _ Hv. apply Z.eqb_eq, lenZ_0_nil in Ep. congruence.
+    + split; [intros _ _; apply same_geno_spec; exact H|].
+      intros [E|E]; rewrite E in *; discriminate.
 Qed.
 
 (* ---- PGEN round trip under pgenlib's contract ------------------------------ *)
@@ -436,29 +586,109 @@ Proof.
   - apply IH; [lia|]. intros x Hin. apply Hx. right. exact Hin.
 Qed.
 
-Lemma lenZ_0_nil {A} (l : list A) : lenZ l = 0 -> l = [].
-Proof. destruct l; [reflexivity|]. unfold lenZ. cbn [length]. lia. Qed.
 
-Lemma pgen_roundtrip pload g cw cr :
-  pload_contract pload -> geno_domb false g = true -> chunk_dom cw -> chunk_dom cr ->
-  exists g', pgen_roundtrip_model pload false cw cr g = Ok g' /\ rt_rel g g'.
+Lemma pgen_write_closed paccept g cw :
+  paccept_complete paccept -> geno_domb false g = true -> chunk_dom cw -> 1 <= lenZ (g_variants g) ->
+  exists c, (1 <= c)%nat /\
+  pgen_write paccept false cw g
+  = Ok (mkpf (g_samples g) (g_variants g) (max_allele_ct (g_variants g)) (pgen_batches false c g)).
 Proof.
-  intros Hc Hd Hw Hr. rewrite chunking_irrelevant by assumption.
-  pose proof (domain_accept g Hd) as Hacc.
-  unfold geno_domb in Hd. rewrite !andb_true_iff in Hd. destruct Hd as [[_ Hlen] Hrows].
-  apply Z.eqb_eq in Hlen. unfold pgen_rt_closed.
+  intros Hcomp Hd Hw Hp. unfold pgen_write.
+  destruct (lenZ (g_variants g) =? 0) eqn:Ep; [apply Z.eqb_eq in Ep; lia|].
+  rewrite (geno_domb_samples _ _ Hd). destruct (step_nat cw _ Hw Hp) as [E0 Hc]. rewrite E0.
+  rewrite (batches_paccept_ok paccept false _ g Hc Hcomp (domain_accept g Hd)).
+  eexists. split; [exact Hc|reflexivity].
+Qed.
+
+(* only the complete clause is needed: what the domain produces meets the precondition *)
+Lemma pgen_roundtrip paccept pload g cw cr :
+  paccept_complete paccept -> pload_contract pload ->
+  geno_domb false g = true -> chunk_dom cw -> chunk_dom cr ->
+  exists g', pgen_roundtrip_model paccept pload false cw cr g = Ok g' /\ rt_rel g g'.
+Proof.
+  intros Hcomp Hc Hd Hw Hr. unfold pgen_roundtrip_model.
   destruct (lenZ (g_variants g) =? 0) eqn:Ep.
-  - apply Z.eqb_eq in Ep. eexists. split; [reflexivity|]. unfold rt_rel. cbn [g_samples g_variants g_rows].
-    rewrite (lenZ_0_nil _ Ep). rewrite Ep in Hlen. rewrite (lenZ_0_nil _ Hlen). repeat split. constructor.
-  - rewrite Hacc. eexists. split; [reflexivity|]. unfold rt_rel. cbn [g_samples g_variants g_rows].
+  - unfold pgen_write. rewrite Ep. cbn [bind]. unfold pgen_read. cbn [pf_variants pf_samples lenZ length Z.of_nat Z.eqb].
+    eexists. split; [reflexivity|]. unfold rt_rel. cbn [g_samples g_variants g_rows].
+    unfold geno_domb in Hd. rewrite !andb_true_iff in Hd. destruct Hd as [[_ Hlen] _]. apply Z.eqb_eq in Hlen.
+    apply Z.eqb_eq in Ep. rewrite (lenZ_0_nil _ Ep). rewrite Ep in Hlen. rewrite (lenZ_0_nil _ Hlen).
+    repeat split. constructor.
+  - assert (Hp : 1 <= lenZ (g_variants g)).
+    { apply Z.eqb_neq in Ep. unfold lenZ in *. lia. }
+    destruct (pgen_write_closed paccept g cw Hcomp Hd Hw Hp) as [c [Hc1 E]]. rewrite E. cbn [bind].
+    rewrite read_written by assumption.
+    eexists. split; [reflexivity|]. unfold rt_rel. cbn [g_samples g_variants g_rows].
     split; [reflexivity|]. split; [reflexivity|].
+    unfold geno_domb in Hd. rewrite !andb_true_iff in Hd. destruct Hd as [[_ Hlen] Hrows].
+    apply Z.eqb_eq in Hlen.
     unfold vrows. apply Forall2_combine_map; [unfold lenZ in Hlen; lia|].
     intros [v r] Hin. cbn [snd]. rewrite forallb_forall in Hrows. specialize (Hrows _ Hin).
     unfold row_domb in Hrows. cbn [fst snd] in Hrows. rewrite !andb_true_iff in Hrows.
     destruct Hrows as [[[_ Hna] _] Hcalls]. apply Z.leb_le in Hna.
     unfold v_stored. cbn [snd]. rewrite stored_row_calls, map_map.
-    apply Forall2_map_self. intros c Hcin. rewrite forallb_forall in Hcalls.
-    apply (call_roundtrip pload (planes g) (lenZ (v_alleles v)) c Hc Hna (Hcalls _ Hcin)).
+    apply Forall2_map_self. intros cl Hcin. rewrite forallb_forall in Hcalls.
+    apply (call_roundtrip pload (planes g) (lenZ (v_alleles v)) cl Hc Hna (Hcalls _ Hcin)).
+Qed.
+
+(* what pgenlib returns when the written file is read directly relates to what was handed
+   over as the contract says, call by call *)
+Lemma pload_okb_spec pload s : pload_contract pload ->
+  (let '(x, y, _) := s in (x = -9 /\ y = -9) \/ (0 <= x /\ 0 <= y)) -> pload_okb s (pload s) = true.
+Proof.
+  intros Hc. destruct s as [[x y] f]. intros Hpre. specialize (Hc x y f Hpre).
+  unfold pload_okb. destruct (pload (x, y, f)) as [[a b] f']. destruct Hc as [H1 [H2 H3]].
+  destruct (x =? y) eqn:Exy.
+  - apply Z.eqb_eq in Exy. destruct (H1 Exy) as [-> ->]. rewrite !Z.eqb_refl. reflexivity.
+  - apply Z.eqb_neq in Exy. destruct (f =? 0) eqn:Ef; cbn [negb].
+    + apply Z.eqb_eq in Ef. destruct (H3 Exy Ef) as [-> [[-> ->]|[-> ->]]]; rewrite !Z.eqb_refl; cbn; try reflexivity.
+      rewrite orb_true_r. reflexivity.
+    + apply Z.eqb_neq in Ef. destruct (H2 Exy Ef) as [-> [-> Hf]]. rewrite !Z.eqb_refl. cbn [andb].
+      apply negb_true_iff, Z.eqb_neq. exact Hf.
+Qed.
+
+(* a call missing in one allele only: the batch that holds it violates pgenlib's
+   precondition, so (sound clause) the writer rejects it and write fails, whatever the
+   chunk size *)
+Lemma half_not_accept g : geno_domb0 true g = true -> has_half g = true -> accept false g = false.
+Proof.
+  unfold geno_domb0, has_half. rewrite andb_true_iff. intros [Hl Hrows] H. apply Z.eqb_eq in Hl.
+  apply existsb_exists in H. destruct H as [r [Hin Hex]].
+  apply existsb_exists in Hex. destruct Hex as [[[a b] p] [Hc Hx]].
+  destruct (in_combine_snd_ex (g_variants g) (g_rows g) ltac:(unfold lenZ in Hl; lia) r Hin) as [v Hvr].
+  rewrite forallb_forall in Hrows. specialize (Hrows _ Hvr). unfold row_domb in Hrows. cbn [fst snd] in Hrows.
+  rewrite !andb_true_iff in Hrows. destruct Hrows as [_ Hcalls]. rewrite forallb_forall in Hcalls.
+  specialize (Hcalls _ Hc). unfold call_domb in Hcalls. rewrite !andb_true_iff in Hcalls.
+  destruct Hcalls as [[[Ha Hb] _] _]. apply code_of_dom in Ha. apply code_of_dom in Hb.
+  apply not_true_is_false. intros Hacc. unfold accept in Hacc. rewrite forallb_forall in Hacc.
+  specialize (Hacc _ Hvr). unfold row_ok, v_codes in Hacc. cbn [snd] in Hacc.
+  apply andb_true_iff in Hacc. destruct Hacc as [_ Hcodes]. unfold row_codes in Hcodes.
+  rewrite forallb_map', forallb_forall in Hcodes. specialize (Hcodes _ Hc). cbn beta iota in Hcodes.
+  unfold pair_ok in Hcodes. apply negb_true_iff in Hx.
+  rewrite orb_true_iff, !andb_true_iff, !Z.eqb_eq, !Z.leb_le, !Z.ltb_lt in Hcodes.
+  destruct Ha as [[Ea Ca]|[Ea [Ra Ca]]], Hb as [[Eb Cb]|[Eb [Rb Cb]]]; rewrite Ca, Cb in Hcodes.
+  - subst a b. discriminate Hx.
+  - lia.
+  - lia.
+  - apply Z.eqb_neq in Ea, Eb. rewrite Ea, Eb in Hx. discriminate Hx.
+Qed.
+
+Lemma pgen_half_missing_refused paccept g cw :
+  paccept_sound paccept -> geno_domb0 true g = true -> has_half g = true ->
+  g_samples g <> [] -> chunk_dom cw ->
+  pgen_write paccept false cw g = Err E_Runtime.
+Proof.
+  intros Hsound Hd Hh Hn Hw. unfold pgen_write.
+  assert (Hp : 1 <= lenZ (g_variants g)).
+  { unfold geno_domb0 in Hd. apply andb_true_iff in Hd. destruct Hd as [Hl _]. apply Z.eqb_eq in Hl.
+    unfold has_half in Hh. apply existsb_exists in Hh. destruct Hh as [r [Hin _]].
+    destruct (g_rows g); [destruct Hin|]. unfold lenZ in *. cbn [length] in Hl. lia. }
+  destruct (lenZ (g_variants g) =? 0) eqn:Ep; [apply Z.eqb_eq in Ep; lia|].
+  destruct (lenZ (g_samples g) =? 0) eqn:En; [apply Z.eqb_eq, lenZ_0_nil in En; congruence|].
+  destruct (step_nat cw _ Hw Hp) as [E0 Hc]. rewrite E0.
+  destruct (forallb (paccept (max_allele_ct (g_variants g))) (pgen_batches false (Z.to_nat (eff_chunk cw (lenZ (g_variants g)))) g)) eqn:E; [|reflexivity].
+  exfalso. assert (Hb : forallb (batch_ok (max_allele_ct (g_variants g))) (pgen_batches false (Z.to_nat (eff_chunk cw (lenZ (g_variants g)))) g) = true).
+  { revert E. apply forallb_eq_ext. intros b. apply Hsound. }
+  rewrite (batches_accept false _ g Hc), (half_not_accept g Hd Hh) in Hb. discriminate.
 Qed.
 
 (* ---- VCF round trip under the pysam/cyvcf2 contract ------------------------ *)
@@ -515,31 +745,60 @@ Proof.
   rewrite IH by lia. reflexivity.
 Qed.
 
-Lemma in_combine_snd_ex {A B} (la : list A) (lb : list B) :
-  length lb = length la -> forall b, In b lb -> exists a, In (a, b) (combine la lb).
+
+(* htslib's contract.  iter: iterating a reader without a region yields every record of
+   the file, whatever the format (plain, bgzip-compressed, BCF) and whether or not an index
+   lies beside it.  region: a region query needs an index *)
+Definition hts_iter_contract (hts : htslib) : Prop :=
+  forall d, hts_iter hts d = vf_recs (vd_file d).
+Definition hts_region_contract (hts : htslib) : Prop :=
+  forall d c, is_indexed d = false -> hts_region hts d c = Err E_Assert.
+
+Lemma hts_std_iter : hts_iter_contract hts_std.
+Proof. intros d. reflexivity. Qed.
+Lemma hts_std_region : hts_region_contract hts_std.
+Proof. intros d c H. cbn. rewrite H. reflexivity. Qed.
+
+(* the read without a region does not look at the format or the index: for every matrix,
+   legal or not, empty or not *)
+Lemma vcf_format_index_irrelevant vload hts legacy0 g fmt idx fmt' idx' :
+  hts_iter_contract hts ->
+  vcf_roundtrip_model vload hts false legacy0 fmt idx g = vcf_roundtrip_model vload hts false legacy0 fmt' idx' g.
 Proof.
-  revert lb. induction la as [|a ra IH]; intros [|b0 rb] H b Hb; cbn in *; try discriminate; try tauto.
-  destruct Hb as [->|Hb]; [exists a; auto|].
-  destruct (IH rb ltac:(lia) b Hb) as [a' Ha']. exists a'. auto.
+  intros Hh. unfold vcf_roundtrip_model, vcf_read, vcf_records. rewrite !Hh. reflexivity.
 Qed.
 
-(* for every index state (indexed or not: the fixed reader does not look at it) *)
-Lemma vcf_roundtrip vload g indexed :
-  vload_contract vload -> geno_domb true g = true -> 1 <= lenZ (g_variants g) ->
-  vcf_roundtrip_model vload false indexed g
-  = mkg (g_samples g) (g_variants g) (map (map (norm_call (planes g))) (g_rows g))
-        [lenZ (g_samples g); lenZ (g_variants g); 3]
-  /\ rt_rel g (vcf_roundtrip_model vload false indexed g).
+Lemma vcf_read_content vload hts legacy0 d d' :
+  hts_iter_contract hts -> vd_file d = vd_file d' ->
+  vcf_read vload hts false legacy0 None d = vcf_read vload hts false legacy0 None d'.
 Proof.
-  intros Hv Hd Hp.
-  assert (E : vcf_roundtrip_model vload false indexed g
-    = mkg (g_samples g) (g_variants g) (map (map (norm_call (planes g))) (g_rows g))
-        [lenZ (g_samples g); lenZ (g_variants g); 3]).
+  intros Hh E. unfold vcf_read, vcf_records. rewrite !Hh, E. reflexivity.
+Qed.
+
+(* a region is only served with an index *)
+Lemma vcf_region_needs_index vload hts legacy legacy0 d c :
+  hts_region_contract hts -> is_indexed d = false ->
+  vcf_read vload hts legacy legacy0 (Some c) d = Err E_Assert.
+Proof. intros Hh Hi. unfold vcf_read, vcf_records. rewrite (Hh d c Hi). reflexivity. Qed.
+
+Lemma vcf_roundtrip vload hts g fmt idx :
+  vload_contract vload -> hts_iter_contract hts ->
+  geno_domb true g = true -> 1 <= lenZ (g_variants g) ->
+  vcf_roundtrip_model vload hts false false fmt idx g
+  = Ok (mkg (g_samples g) (g_variants g) (map (map (norm_call (planes g))) (g_rows g))
+            [lenZ (g_samples g); lenZ (g_variants g); 3])
+  /\ exists g', vcf_roundtrip_model vload hts false false fmt idx g = Ok g' /\ rt_rel g g'.
+Proof.
+  intros Hv Hh Hd Hp.
+  assert (E : vcf_roundtrip_model vload hts false false fmt idx g
+    = Ok (mkg (g_samples g) (g_variants g) (map (map (norm_call (planes g))) (g_rows g))
+        [lenZ (g_samples g); lenZ (g_variants g); 3])).
   { unfold geno_domb in Hd. rewrite !andb_true_iff in Hd. destruct Hd as [[Hn Hlen] Hrows].
     apply Z.leb_le in Hn. apply Z.eqb_eq in Hlen.
     assert (Hl : length (map (map (vcf_call (planes g))) (g_rows g)) = length (g_variants g)).
     { rewrite map_length. unfold lenZ in Hlen. lia. }
-    unfold vcf_roundtrip_model, vcf_read, vcf_write. cbn [andb vf_recs vf_samples].
+    unfold vcf_roundtrip_model, vcf_read, vcf_records. rewrite Hh. cbn [vd_file bind].
+    unfold vcf_build, vcf_write. cbn [andb vf_recs vf_samples].
     assert (Hlr : lenZ (combine (g_variants g) (map (map (vcf_call (planes g))) (g_rows g))) = lenZ (g_variants g)).
     { unfold lenZ. rewrite combine_length, Hl. lia. }
     rewrite Hlr.
@@ -547,7 +806,7 @@ Proof.
     destruct (lenZ (g_variants g) =? 0) eqn:E2; [apply Z.eqb_eq in E2; lia|]. cbn [orb].
     rewrite (map_combine_fst _ _ Hl).
     rewrite (map_combine_snd (map (vcf_load_call vload)) _ _ Hl). rewrite map_map.
-    f_equal. 
+    f_equal. f_equal.
     (* row by row *)
     assert (Hin : forall r, In r (g_rows g) -> exists v, In (v, r) (combine (g_variants g) (g_rows g))).
     { apply in_combine_snd_ex. unfold lenZ in Hlen. lia. }
@@ -557,22 +816,53 @@ Proof.
     apply Z.leb_le in Hna. rewrite map_map. apply map_ext_in. intros c Hc.
     rewrite forallb_forall in Hcalls.
     apply (vcf_call_roundtrip vload (planes g) (lenZ (v_alleles v)) c Hv Hna (Hcalls _ Hc)). }
-  split; [exact E|]. rewrite E. unfold rt_rel. cbn [g_samples g_variants g_rows].
+  split; [exact E|]. eexists. split; [exact E|]. unfold rt_rel. cbn [g_samples g_variants g_rows].
   split; [reflexivity|]. split; [reflexivity|].
   apply Forall2_map_self. intros r _. apply Forall2_map_self. intros c _. apply norm_call_equiv.
 Qed.
 
-(* ---- the empty matrix ------------------------------------------------------- *)
+(* ---- the matrices without entries ------------------------------------------------ *)
 
-Lemma empty_roundtrip pload vload samples k cw cr legacy indexed :
-  let g := mkg samples [] [] [lenZ samples; 0; k] in
-  pgen_roundtrip_model pload legacy cw cr g = Ok (mkg samples [] [] [lenZ samples; 0; 3])
-  /\ vcf_roundtrip_model vload legacy indexed g = mkg samples [] [] [0; 0; 0].
+(* PGEN: without variants the round trip gives the samples back and an array (n, 0, 3),
+   for every number of samples (0 included), every library, every chunk size *)
+Lemma pgen_empty_roundtrip paccept pload g cw cr legacy :
+  g_variants g = [] ->
+  pgen_roundtrip_model paccept pload legacy cw cr g = Ok (mkg (g_samples g) [] [] [lenZ (g_samples g); 0; 3])
+  /\ empty_rel g (mkg (g_samples g) [] [] [lenZ (g_samples g); 0; 3]).
 Proof.
-  cbn zeta. split.
-  - reflexivity.
-  - unfold vcf_roundtrip_model, vcf_read, vcf_write. cbn [g_variants g_rows g_samples combine map vf_recs vf_samples].
-    destruct (legacy && negb indexed); cbn [lenZ length map]; rewrite orb_true_r; reflexivity.
+  intros Hv. split.
+  - unfold pgen_roundtrip_model, pgen_write. rewrite Hv. reflexivity.
+  - unfold empty_rel. cbn [g_samples g_variants g_rows g_shape]. rewrite Hv. repeat split; [constructor|].
+    right. left. reflexivity.
+Qed.
+
+(* PGEN: variants without samples are refused (the format cannot hold them) *)
+Lemma pgen_nosamples_refused paccept g cw :
+  g_samples g = [] -> g_variants g <> [] -> pgen_write paccept false cw g = Err E_Value.
+Proof.
+  intros Hn Hp. unfold pgen_write. rewrite Hn.
+  destruct (lenZ (g_variants g) =? 0) eqn:Ep; [apply Z.eqb_eq, lenZ_0_nil in Ep; congruence|]. reflexivity.
+Qed.
+
+(* VCF/BCF: no samples or no variants - the samples and the variants come back, the array
+   has no entry; every format, with or without index *)
+Lemma vcf_empty_roundtrip vload hts g fmt idx :
+  hts_iter_contract hts -> lenZ (g_rows g) = lenZ (g_variants g) ->
+  g_samples g = [] \/ g_variants g = [] ->
+  vcf_roundtrip_model vload hts false false fmt idx g = Ok (mkg (g_samples g) (g_variants g) [] [0; 0; 0])
+  /\ empty_rel g (mkg (g_samples g) (g_variants g) [] [0; 0; 0]).
+Proof.
+  intros Hh Hlen He. split.
+  - unfold vcf_roundtrip_model, vcf_read, vcf_records. rewrite Hh. cbn [vd_file bind].
+    unfold vcf_build, vcf_write. cbn [andb vf_recs vf_samples].
+    assert (Hl : length (map (map (vcf_call (planes g))) (g_rows g)) = length (g_variants g)).
+    { rewrite map_length. unfold lenZ in Hlen. lia. }
+    assert (Hlr : lenZ (combine (g_variants g) (map (map (vcf_call (planes g))) (g_rows g))) = lenZ (g_variants g)).
+    { unfold lenZ. rewrite combine_length, Hl. lia. }
+    rewrite Hlr, (map_combine_fst _ _ Hl).
+    destruct He as [E|E]; rewrite E; cbn [lenZ length Z.of_nat Z.eqb orb]; [reflexivity|].
+    rewrite orb_true_r. reflexivity.
+  - unfold empty_rel. cbn [g_samples g_variants g_rows g_shape]. repeat split; [constructor|]. left. reflexivity.
 Qed.
 
 (* ---- defect 9: the pinned reader returns nothing without an index ---------- *)
@@ -581,18 +871,55 @@ Definition g_one : geno := mkg [0] [mkvar 0 0 28 [0; 1] 1] [[(0, 0, 1)]] [1; 1; 
 
 Example legacy_unindexed_refuted :
   geno_domb true g_one = true
-  /\ vcf_roundtrip_model vload_std true false g_one = mkg [0] [] [] [0; 0; 0]
-  /\ same_geno g_one (vcf_roundtrip_model vload_std true false g_one) = false
-  /\ same_geno g_one (vcf_roundtrip_model vload_std true true g_one) = true
-  /\ same_geno g_one (vcf_roundtrip_model vload_std false false g_one) = true.
+  /\ vcf_roundtrip_model vload_std hts_std true false F_vcf I_none g_one = Ok (mkg [0] [] [] [0; 0; 0])
+  /\ (forall g', vcf_roundtrip_model vload_std hts_std true false F_bcf I_none g_one = Ok g' -> same_geno g_one g' = false)
+  /\ (exists g', vcf_roundtrip_model vload_std hts_std true false F_vcfgz I_tbi g_one = Ok g' /\ same_geno g_one g' = true)
+  /\ (exists g', vcf_roundtrip_model vload_std hts_std false false F_vcf I_none g_one = Ok g' /\ same_geno g_one g' = true).
+Proof.
+  split; [reflexivity|]. split; [reflexivity|]. split.
+  - intros g' H. vm_compute in H. inversion H. reflexivity.
+  - split; eexists; split; vm_compute; reflexivity.
+Qed.
+
+(* the shapes without samples on the trees before the repairs: the PGEN writer crashed the
+   interpreter, the VCF reader raised AttributeError *)
+Definition g_nosamples : geno := mkg [] [mkvar 0 0 28 [0; 1] 1] [[]] [0; 1; 3].
+
+Example legacy_nosamples_refuted :
+  geno_domb0 true g_nosamples = true
+  /\ pgen_write paccept_std true None g_nosamples = Err E_Crash
+  /\ pgen_write paccept_std false None g_nosamples = Err E_Value
+  /\ vcf_roundtrip_model vload_std hts_std false true F_vcf I_none g_nosamples = Err E_Attribute
+  /\ vcf_roundtrip_model vload_std hts_std false false F_vcf I_none g_nosamples
+      = Ok (mkg [] [mkvar 0 0 28 [0; 1] 1] [] [0; 0; 0]).
 Proof. vm_compute. repeat split. Qed.
 
 (* the hypotheses of the round-trip theorems are satisfiable *)
 Example roundtrip_hypotheses_satisfiable :
-  pload_contract pload_std /\ vload_contract vload_std
+  paccept_complete paccept_std /\ paccept_sound paccept_std
+  /\ pload_contract pload_std /\ vload_contract vload_std
+  /\ hts_iter_contract hts_std /\ hts_region_contract hts_std
   /\ geno_domb false g_unobserved_allele = true /\ geno_domb true g_one = true
   /\ chunk_dom None /\ chunk_dom (Some 1).
 Proof.
+  split; [exact paccept_std_complete|]. split; [exact paccept_std_sound|].
   split; [exact pload_std_contract|]. split; [exact vload_std_contract|].
+  split; [exact hts_std_iter|]. split; [exact hts_std_region|].
   vm_compute. repeat split; discriminate.
+Qed.
+
+(* ---- the names as text: what holds_text = true means --------------------------------------- *)
+
+Lemma holds_text_sound k :
+  holds_text k = true ->
+  forallb token_ok (tf_samples (tc_file k)) = true ->
+  forallb (fun r => tvariant_ok (fst r)) (tf_recs (tc_file k)) = true ->
+  exists b, tc_back k = Ok b /\ tb_samples b = tf_samples (tc_file k)
+            /\ tb_variants b = map fst (tf_recs (tc_file k)).
+Proof.
+  unfold holds_text. intros H Hs Hv. rewrite Hs, Hv in H. cbn [andb] in H.
+  destruct (tc_back k) as [b|]; [|discriminate]. exists b. split; [reflexivity|].
+  apply andb_true_iff in H. destruct H as [H1 H2].
+  apply (list_eqb_spec str_eqb str_eqb_spec) in H1.
+  apply (list_eqb_spec tvariant_eqb C07_ProofsText.tvariant_eqb_spec) in H2. auto.
 Qed.
